@@ -214,3 +214,44 @@ pub fn asset_amount(assets: &[Asset], denom: &str) -> u128 {
     assets.iter().filter(|a| matches!(&a.info, AssetInfo::NativeToken { denom: d } if d == denom)).map(|a| a.amount.u128()).sum()
 }
 pub fn decimal(atomics: u128) -> Decimal { dec(atomics) }
+
+// ---- recording hook receiver (C20): counts EpochChangedHook notifications, can be told to reject ----------------
+pub mod hook_recorder {
+    use cosmwasm_schema::cw_serde;
+    use cosmwasm_std::{to_json_binary, Binary, Deps, DepsMut, Empty, Env, MessageInfo, Response, StdError, StdResult};
+    use cw_multi_test::{Contract, ContractWrapper};
+    use cw_storage_plus::Item;
+    use white_whale_std::epoch_manager::hooks::EpochChangedHookMsg;
+
+    #[cw_serde]
+    pub enum Exec { EpochChangedHook(EpochChangedHookMsg), SetFail { fail: bool } }
+    #[cw_serde]
+    pub enum Query { Log {} }
+    #[cw_serde]
+    #[derive(Default)]
+    pub struct Log { pub calls: u64, pub last_id: u64, pub last_start: u64 }
+    const LOG: Item<Log> = Item::new("log");
+    const FAIL: Item<bool> = Item::new("fail");
+
+    fn instantiate(deps: DepsMut, _e: Env, _i: MessageInfo, _m: Empty) -> StdResult<Response> {
+        LOG.save(deps.storage, &Log::default())?;
+        FAIL.save(deps.storage, &false)?;
+        Ok(Response::default())
+    }
+    fn execute(deps: DepsMut, _e: Env, _i: MessageInfo, m: Exec) -> StdResult<Response> {
+        match m {
+            Exec::SetFail { fail } => FAIL.save(deps.storage, &fail)?,
+            Exec::EpochChangedHook(h) => {
+                if FAIL.load(deps.storage)? { return Err(StdError::generic_err("hook receiver rejects")); }
+                let mut l = LOG.load(deps.storage)?;
+                l.calls += 1;
+                l.last_id = h.current_epoch.id;
+                l.last_start = h.current_epoch.start_time.nanos();
+                LOG.save(deps.storage, &l)?;
+            }
+        }
+        Ok(Response::default())
+    }
+    fn query(deps: Deps, _e: Env, _m: Query) -> StdResult<Binary> { to_json_binary(&LOG.load(deps.storage)?) }
+    pub fn contract() -> Box<dyn Contract<Empty>> { Box::new(ContractWrapper::new(execute, instantiate, query)) }
+}
